@@ -688,20 +688,42 @@ class Analysis:
                 self.write_cell(st, p[1], (), cs.args[1])
                 return
         bases = set()
-        for a in cs.args:
+        for a, o in zip(cs.args, cs.term["args"]):
+            ot = self.operand_ty(o)
+            if ot is not None and ot.get("k") == "ref" and not ot["mut"] and a[0] == "P":
+                continue  # a shared reference: the callee cannot write through it (interior mutability is not tracked)
             self.bases_in(a, bases)
         # pointers reachable through one level of memory (e.g. a closure struct holding &mut captures)
         more = set()
         for b in bases:
+            ub, up = (b[1], b[2]) if b[0] == "field" else (b, ())
             for k, v in st.mem.items():
-                if k[0] == b:
+                if k[0] == ub and k[1][: len(up)] == up:
                     self.bases_in(v, more)
         for b in bases | more:
-            for k in list(st.mem):
-                if k[0] == b:
+            self.havoc(st, b, site)
+
+    def havoc(self, st, b, site):
+        """Forget everything known about the object (or field sub-object) b: it may have been written through a pointer."""
+        ub, up = (b[1], b[2]) if b[0] == "field" else (b, ())
+        for k in list(st.mem):
+            if k[0] != ub or k[1] == ("__epoch__",):
+                continue
+            kp = k[1]
+            if kp[: len(up)] == up:
+                del st.mem[k]  # the cell itself or a sub-cell
+            elif up[: len(kp)] == kp:
+                # a stored parent aggregate: replace the affected component by an opaque value
+                nv = self._update_agg(st.mem[k], up[len(kp):], ("V", "havoc", site, (ub, up)))
+                if nv is not None:
+                    # typed opaque for integer components so arithmetic keeps working
+                    st.mem[k] = nv
+                else:
                     del st.mem[k]
-            # future reads of this base must not be confused with entry values
-            st.mem[(b, ("__epoch__",))] = ("V", "epoch", site)
+        if not up:
+            st.mem[(ub, ("__epoch__",))] = ("V", "epoch", site)
+        else:
+            st.mem[(ub, up)] = ("V", "havoc", site, (ub, up))
 
     # ---- transfer --------------------------------------------------------------------------
     def exec_block(self, bb, st, record):
@@ -865,6 +887,16 @@ class Analysis:
         (so `a < b || a > b` still yields `a != b` at the join)."""
         if fa == fb:
             return fa
+        ck = (fa, fb)
+        cache = self.__dict__.setdefault("_meet_cache", {})
+        if ck in cache:
+            return cache[ck]
+        r = self._meet_facts(fa, fb)
+        cache[ck] = r
+        cache[(fb, fa)] = r
+        return r
+
+    def _meet_facts(self, fa, fb):
         common = fa & fb
         cands = set()
         for f in (fa | fb) - common:
@@ -936,27 +968,60 @@ class Analysis:
                 st.mem[key] = ("V", "arg", i)
         return st
 
+    def _flags_only(self, st):
+        mem = {}
+        for k, v in st.mem.items():
+            if (v[0] == "B" and v[1][0] == "const") or (v[0] == "I" and v[1].is_const()):
+                mem[k] = v
+        return State(mem, frozenset())
+
     def run(self):
-        self.block_in = {0: self.entry_state()}
+        """Worklist fixpoint.  Out-states are kept per CFG edge and a block's in-state is recomputed as the join
+        over its incoming edges, so single-predecessor blocks receive their predecessor's state exactly."""
+        entry = self.entry_state()
+        self.block_in = {0: entry}
+        edge_out = {}  # (pred, idx) -> (succ, state)
         work = [0]
         iters = 0
         while work:
             iters += 1
-            if iters > 5000:
+            if iters > 4000:
                 self.unknown.append(("fixpoint", None, "iteration bound"))
                 break
             bb = work.pop(0)
-            st = self.block_in[bb].copy()
-            for succ, s2 in self.exec_block(bb, st, False):
-                if succ not in self.block_in:
-                    self.block_in[succ] = s2.copy()
-                    work.append(succ)
-                else:
-                    j, ch = self.join(succ, self.block_in[succ], s2)
-                    if ch:
-                        self.block_in[succ] = j
-                        if succ not in work:
-                            work.append(succ)
+            outs = self.exec_block(bb, self.block_in[bb].copy(), False)
+            if not self.blocks[bb]["cleanup"]:
+                # cleanup blocks only need the drop flags (constant bools / ints): project the state on unwind edges
+                outs = [(succ, self._flags_only(s2) if self.blocks[succ]["cleanup"] else s2) for succ, s2 in outs]
+            dirty = set()
+            for idx, (succ, s2) in enumerate(outs):
+                old = edge_out.get((bb, idx))
+                if old is None or old[0] != succ or old[1].mem != s2.mem or old[1].facts != s2.facts:
+                    if old is not None and old[0] != succ:
+                        dirty.add(old[0])
+                    edge_out[(bb, idx)] = (succ, s2)
+                    dirty.add(succ)
+            idx = len(outs)
+            while (bb, idx) in edge_out:
+                dirty.add(edge_out[(bb, idx)][0])
+                del edge_out[(bb, idx)]
+                idx += 1
+            for succ in sorted(dirty):
+                incoming = [st for (p, i), (t, st) in sorted(edge_out.items()) if t == succ]
+                if succ == 0:
+                    incoming = [entry] + incoming
+                if not incoming:
+                    if succ in self.block_in and succ != 0:
+                        del self.block_in[succ]
+                    continue
+                acc = incoming[0].copy()
+                for st in incoming[1:]:
+                    acc, _ = self.join(succ, acc, st)
+                prev = self.block_in.get(succ)
+                if prev is None or prev.mem != acc.mem or prev.facts != acc.facts:
+                    self.block_in[succ] = acc
+                    if succ not in work:
+                        work.append(succ)
         # recording pass
         self.edges = {}
         for bb in sorted(self.block_in):
